@@ -12,8 +12,10 @@ def run(ctx):
     ctx.assumptions += [
         "LevelDB (goleveldb) is modelled as an ordered map with an atomic write batch and snapshot iterators; its "
         "internals, the OS and the file system are trusted (exercised through the in-memory storage backend)",
-        "iterator errors (released iterator, LevelDB I/O error) are not modelled in JoinIter",
-        "buffers and store are not modified while a JoinIter is in use (the callers scan under the ledger lock)",
+        "iterator errors are opaque error predicates of the sub-iterators (harness: a wrapper that fails at its k-th positioning call)",
+        "the exact scan theorems assume buffers and store are not modified while a JoinIter is in use (the callers scan under the "
+        "ledger lock); under interleaved writes the proved claim is live_join_monotone / live_iterator_next, and the stepped "
+        "iterators of stream part (d) tie the model's behaviour (live buffer side, snapshot store side) to the code",
     ]
     ctx.cov["trusted_base"] += ["harness hkv/layers + drv_kv (correspondence check)", "goleveldb (in-memory storage backend)",
                                 "Lean compiler for the driver"]
